@@ -127,6 +127,8 @@ def gen_workload(rng, malformed=False, batch=False, dag=False, resolve=False):
 
 
 def gen_world(rng, stream="regular"):
+    if stream == "plan" or stream.startswith("plan:"):
+        return gen_plan_world(rng, stream.split(":")[1] if ":" in stream else None)
     malformed = stream == "malformed"
     batch = stream == "batch"
     dag = stream == "dag"  # plain multi-parent DAGs (joins behind paths of different length) under the bundled greedy policies
@@ -174,3 +176,98 @@ def gen_world(rng, stream="regular"):
             policy["batch_prob"] = rng.choice([0.5, 0.8, 1.0])
             policy["cancel_prob"] = rng.choice([0.0, 0.0, 0.05])
     return {"workers": gen_workers(rng), "workload": wl, "flags": flags, "policy": policy, "stream": stream, "max_steps": 3000}
+
+
+# --------------------------------------------------------------------------
+# stream "plan": small worlds for the REAL optimisation planners
+# --------------------------------------------------------------------------
+
+PLANNERS = ["ILP", "TetriSchedGurobi", "TetriSchedCPLEX"]
+
+
+def gen_plan_world(rng, planner=None):
+    """A world for ILPScheduler / TetriSchedGurobiScheduler / TetriSchedCPLEXScheduler run end to end.
+
+    Small on purpose (the Gurobi licence is size-restricted and every scheduler invocation is a solver call): 1-3
+    workers, 1-3 jobs of 1-3 tasks released over time (fixed period, 1-3 invocations), at most ~4 tasks on offer at
+    a time, 1-2 strategies per task with DIFFERENT runtimes and resource kinds (a fast GPU strategy and a slow CPU
+    strategy), short horizons.  Tasks keep arriving while earlier ones are still SCHEDULED for a later start, so a
+    retracting planner re-places them (possibly with the other strategy)."""
+    pol = planner or rng.choice(PLANNERS)
+    # -- cluster ---------------------------------------------------------------
+    n_workers = rng.choice([1, 2, 2, 3])
+    n_pools = 1 if n_workers == 1 or rng.random() < 0.6 else 2
+    homogeneous = rng.random() < 0.65
+    pools = [{"name": f"Pool{i}", "workers": []} for i in range(n_pools)]
+    for wi in range(n_workers):
+        if homogeneous or wi == 0:
+            kinds = ["GPU", "CPU"]
+        else:
+            kinds = rng.choice([["GPU"], ["CPU"], ["GPU", "CPU"]])
+        res = [{"name": f"{nm}:id{k + 1}", "quantity": rng.choice([1, 1, 2])} for k, nm in enumerate(kinds)]
+        pools[wi % n_pools]["workers"].append({"name": f"W{wi % n_pools}_{wi // n_pools}", "resources": res})
+    # -- workload --------------------------------------------------------------
+    graphs, profiles = [], []
+    njobs = rng.choice([1, 2, 2, 3])
+    budget = 9  # tasks over the whole run
+    for ji in range(njobs):
+        jname = f"J{ji}"
+        shape = rng.choice(["one", "one", "chain2", "chain2", "chain3", "fork", "join"])
+        n = {"one": 1, "chain2": 2, "chain3": 3, "fork": 3, "join": 3}[shape]
+        kids = {
+            "one": {0: []}, "chain2": {0: [1], 1: []}, "chain3": {0: [1], 1: [2], 2: []},
+            "fork": {0: [1, 2], 1: [], 2: []}, "join": {0: [2], 1: [2], 2: []},
+        }[shape]
+        nodes = []
+        for ti in range(n):
+            fast = rng.choice([2, 3, 4, 5])
+            slow = fast + rng.choice([3, 5, 8, 15])
+            r = rng.random()
+            if r < 0.55:
+                strategies = [
+                    {"batch_size": 1, "runtime": fast, "resource_requirements": {"GPU:any": 1}},
+                    {"batch_size": 1, "runtime": slow, "resource_requirements": {"CPU:any": 1}},
+                ]
+                if rng.random() < 0.5:
+                    strategies.reverse()
+            elif r < 0.8:
+                strategies = [{"batch_size": 1, "runtime": fast, "resource_requirements": {rng.choice(["GPU:any", "CPU:any"]): rng.choice([1, 1, 2])}}]
+            else:
+                # same kind, different amounts: the fast strategy takes the whole worker
+                strategies = [
+                    {"batch_size": 1, "runtime": fast, "resource_requirements": {"GPU:any": 2}},
+                    {"batch_size": 1, "runtime": slow, "resource_requirements": {"GPU:any": 1}},
+                ]
+            pname = f"{jname}_P{ti}"
+            profiles.append({"name": pname, "execution_strategies": strategies})
+            node = {"name": f"T{ti}", "work_profile": pname}
+            if kids[ti]:
+                node["children"] = [f"T{k}" for k in kids[ti]]
+            nodes.append(node)
+        inv = rng.choice([1, 2, 2, 3])
+        while n * inv > budget and inv > 1:
+            inv -= 1
+        budget = max(1, budget - n * inv)
+        g = {"name": jname, "graph": nodes, "release_policy": "fixed", "period": rng.choice([2, 3, 5, 8, 12]), "invocations": inv,
+             "start": rng.choice([0, 0, 1, 3, 6, 10]), "deadline_variance": rng.choice([[0, 0], [10, 30], [50, 100], [100, 200], [20, 20]])}
+        graphs.append(g)
+    lookahead = rng.choice([0, 0, 3, 10, 30])
+    rtg = pol != "TetriSchedCPLEX" and rng.random() < 0.3
+    enforce = rng.random() < 0.85
+    policy = {"name": pol, "enforce_deadlines": enforce, "retract": rng.random() < 0.6, "lookahead": lookahead, "goal": "max_goodput"}
+    if pol == "ILP" and (not enforce or rng.random() < 0.15):
+        policy["goal"] = "max_slack"
+    if pol != "ILP":
+        policy["disc"] = rng.choice([1, 1, 1, 2, 3])
+        policy["plan_ahead"] = rng.choice([6, 10, 14]) * policy["disc"] if rng.random() < 0.85 else -1
+    flags = {
+        "loop_timeout": rng.choice([50, 80, 120]),
+        "scheduler_frequency": rng.choice([-1, -1, 1, 3, 5]),
+        "scheduler_delay": 0,
+        "runtime_variance": 0 if rng.random() < 0.9 else rng.choice([20, 50]),
+        "drop_skipped_tasks": rng.random() < 0.4,
+        "scheduler_run_at_worker_free": rng.random() < 0.15,
+        "workload_update_interval": -1,
+        "release_taskgraphs": rtg,
+    }
+    return {"workers": pools, "workload": {"graphs": graphs, "profiles": profiles}, "flags": flags, "policy": policy, "stream": "plan", "max_steps": 3000}
